@@ -186,7 +186,8 @@ theorem sortCells_view {as as' : List Int → List Nat} (has : IsArgsort as) (ha
     rw [permuteRows_comp (hs.cf cf hcf) _ _ (hκlt cf.ctype) hC2lt, hK3 cf.ctype]
 
 /-- **`mesh_equal` between two cell orders of the same view forces the same order** -/
-theorem view_eq_of_meshEqual (h : List Nat → Int) {s : MeshFields} (hs : CellHypP h s)
+theorem view_eq_of_meshEqual {s : MeshFields} (htypes : s.mesh.cellTypes.Nodup)
+    (hvs : ∀ b ∈ s.mesh.cells, (b.2.map sortNat).Nodup)
     {κ1 κ2 : String → List Nat} (hκ1 : ∀ ct, (κ1 ct).Perm (List.range (s.mesh.cellsOf ct).length))
     (hκ2 : ∀ ct, (κ2 ct).Perm (List.range (s.mesh.cellsOf ct).length)) (t : MeshTol)
     (heq : meshEqual t (applyCellMaps s κ1).mesh (applyCellMaps s κ2).mesh = true) :
@@ -204,13 +205,9 @@ theorem view_eq_of_meshEqual (h : List Nat → Int) {s : MeshFields} (hs : CellH
       simp only [Mesh.cellTypes, List.contains_iff_mem, List.mem_map]
       exact ⟨b, hb, rfl⟩
     simp only [hcont, if_true, Bool.and_eq_true, beq_iff_eq] at h3
-    have e : s.mesh.cellsOf b.1 = b.2 := Fc.cellsOf_of_mem s.mesh hs.types b hb
+    have e : s.mesh.cellsOf b.1 = b.2 := Fc.cellsOf_of_mem s.mesh htypes b hb
     rw [cellsOf_applyCellMaps s κ2 b.1 (fun e0 => perm_range_zero (hκ2 b.1) e0), e] at h3
-    have hnd : (b.2.map sortNat).Nodup := by
-      have h1 : ((b.2.map sortNat).map h).Nodup := by
-        rw [List.map_map]
-        exact hs.hash b hb
-      exact List.Nodup.of_map _ h1
+    have hnd : (b.2.map sortNat).Nodup := hvs b hb
     have conv : ∀ κ : List Nat, (κ.map fun c => b.2.getD c []).map sortNat =
         κ.map ((b.2.map sortNat).getD · []) := by
       intro κ
@@ -235,5 +232,38 @@ theorem view_eq_of_meshEqual (h : List Nat → Int) {s : MeshFields} (hs : CellH
     · rw [perm_range_zero (hκ1 ct) e, perm_range_zero (hκ2 ct) e]
     · exact hblock b hb
   rw [hall]
+
+theorem CellHypP.vertexSets {h : List Nat → Int} {s : MeshFields} (hs : CellHypP h s) :
+    ∀ b ∈ s.mesh.cells, (b.2.map sortNat).Nodup := by
+  intro b hb
+  have h1 : ((b.2.map sortNat).map h).Nodup := by
+    rw [List.map_map]
+    exact hs.hash b hb
+  exact List.Nodup.of_map _ h1
+
+theorem domainEq_iff (src ref : Side) :
+    (runComparison src ref).domainEq = true ↔
+      meshEqual (if src.permuted then src.tol
+        else ⟨min src.tol.atol ref.tol.atol, min src.tol.rtol ref.tol.rtol⟩) src.f.mesh ref.f.mesh = true := by
+  unfold runComparison
+  simp only
+  cases meshEqual (if src.permuted then src.tol
+        else ⟨min src.tol.atol ref.tol.atol, min src.tol.rtol ref.tol.rtol⟩) src.f.mesh ref.f.mesh <;> simp
+
+/-- two views of `s` that differ only in the cell order: if the domain check passes (whatever the
+    tolerances and kinds of the domain objects), the views are identical and every field passes -/
+theorem runComparison_views {s : MeshFields} (htypes : s.mesh.cellTypes.Nodup)
+    (hvs : ∀ b ∈ s.mesh.cells, (b.2.map sortNat).Nodup) {κ1 κ2 : String → List Nat}
+    (hκ1 : ∀ ct, (κ1 ct).Perm (List.range (s.mesh.cellsOf ct).length))
+    (hκ2 : ∀ ct, (κ2 ct).Perm (List.range (s.mesh.cellsOf ct).length)) (t1 t2 : MeshTol) (p1 p2 : Bool)
+    (hd : (runComparison ⟨applyCellMaps s κ1, t1, p1⟩ ⟨applyCellMaps s κ2, t2, p2⟩).domainEq = true) :
+    allPassed (runComparison ⟨applyCellMaps s κ1, t1, p1⟩ ⟨applyCellMaps s κ2, t2, p2⟩) = true := by
+  have heq := (domainEq_iff _ _).mp hd
+  have e := view_eq_of_meshEqual htypes hvs hκ1 hκ2 _ heq
+  rw [e]
+  apply runComparison_self
+  show (applyCellMaps s κ2).mesh.cellTypes.Nodup
+  rw [cellTypes_applyCellMaps]
+  exact htypes
 
 end Fc.C02
